@@ -276,7 +276,7 @@ func c02Setter(c *hx.Ctx, r *hx.RNG, l hx.Limits) {
 		if r.Chance(8) {
 			e = []int64{math.MaxInt64, math.MinInt64, math.MaxInt64 - 1000, math.MinInt64 + 1000}[r.Intn(4)]
 		}
-		mant := hx.Mk(v, digitsOf(v)+uint(r.Intn(10)), mode)
+		mant := hx.MkR(r, v, digitsOf(v)+uint(r.Intn(10)), mode) // (also specials with leftovers, and operands whose accuracy is Below/Above)
 		z := usedRecv(r, int64(r.Range(0, 40)), r.Mode())
 		pi = hx.Try(func() { z.SetMantExp(mant, int(e)) })
 		got = hx.Snapshot(z)
